@@ -311,41 +311,137 @@ theorem lost_tail_prefix_state (c : Codec) (hist : List Mutation) (es : List Byt
   · left; simp [reopenBytes, h]
   · exact reopen_payload_prefix c hist es hcodec n _ h
 
-/-- explicit hypothesis for torn writes: every payload that the framing cuts out of the torn region and
-that still parses as a version-1 entry fails the checksum comparison (CRC-64 detects the damage) -/
-def TornRejected (c : Codec) (g : Bytes) : Prop :=
-  ∀ ps, load g = some ps → ∀ q ∈ ps, ∀ e, c.parseEntry q = some e → e.version = logV1 → c.crc e.data ≠ e.checksum
+/-- a mutation whose type no `handleMutation` case matches: replaying it changes nothing -/
+def Noop (m : Mutation) : Prop := ∀ mem, handle mem m = .ok mem
+
+theorem noop_zero : Noop {} := by intro mem; simp [handle, tags]
+
+theorem replayG_reset_append_list (m : Mem) (l1 l2 : List Mutation) :
+    replayG true {} m (l1 ++ l2) =
+      match replayG true {} m l1 with
+      | .error e => .error e
+      | .ok m' => replayG true {} m' l2 := by
+  induction l1 generalizing m with
+  | nil => simp [replayG]
+  | cons x xs ih =>
+    rw [List.cons_append, replayG_reset_cons, replayG_reset_cons]
+    cases handle m x with
+    | error e => rfl
+    | ok m' => exact ih m'
+
+theorem replay_noops (m : Mem) (ns : List Mutation) (h : ∀ n ∈ ns, Noop n) :
+    replayG true {} m ns = .ok m := by
+  induction ns with
+  | nil => rfl
+  | cons n ns ih =>
+    rw [replayG_reset_cons, h n (by simp)]
+    exact ih (fun x hx => h x (by simp [hx]))
+
+theorem decodeAll_append (c : Codec) (a b : List Bytes) :
+    decodeAll c (a ++ b) =
+      match decodeAll c a, decodeAll c b with
+      | some x, some y => some (x ++ y)
+      | _, _ => none := by
+  induction a with
+  | nil =>
+    simp only [List.nil_append, decodeAll]
+    cases decodeAll c b <;> rfl
+  | cons e a ih =>
+    simp only [List.cons_append, decodeAll, ih]
+    cases decodePayload c e <;> cases decodeAll c a <;> cases decodeAll c b <;> rfl
+
+theorem decodeAll_mem (c : Codec) (ps : List Bytes) (ns : List Mutation) (h : decodeAll c ps = some ns) :
+    ∀ n ∈ ns, ∃ q ∈ ps, decodePayload c q = some n := by
+  induction ps generalizing ns with
+  | nil => simp [decodeAll] at h; subst h; simp
+  | cons p ps ih =>
+    simp only [decodeAll] at h
+    cases hd : decodePayload c p with
+    | none => simp [hd] at h
+    | some m =>
+      cases hr : decodeAll c ps with
+      | none => simp [hd, hr] at h
+      | some ms =>
+        simp [hd, hr] at h; subst h
+        intro n hn
+        rcases List.mem_cons.mp hn with rfl | hn
+        · exact ⟨p, by simp, hd⟩
+        · obtain ⟨q, hq, hdq⟩ := ih ms hr n hn
+          exact ⟨q, by simp [hq], hdq⟩
+
+/-- what a torn region may contain without harm: every payload the framing cuts out of it is either
+rejected by `decodeEntry` / the parsers, or decodes to a no-op mutation -/
+def TornHarmless (c : Codec) (g : Bytes) : Prop :=
+  ∀ ps, load g = some ps → ∀ q ∈ ps, ∀ m, decodePayload c q = some m → Noop m
+
+/-- the CRC hypothesis: every payload cut out of the torn region that still parses as a version-1 entry
+WITH data fails the checksum comparison (CRC-64 detects the damage). An entry without data has
+checksum 0 = crc(empty) and passes, but carries the zero mutation. -/
+def TornDetected (c : Codec) (g : Bytes) : Prop :=
+  ∀ ps, load g = some ps → ∀ q ∈ ps, ∀ e, c.parseEntry q = some e → e.version = logV1 → e.data ≠ [] →
+    c.crc e.data ≠ e.checksum
+
+theorem torn_detected_harmless (c : Codec) (g : Bytes) (hempty : ∀ m, c.parseMut [] = some m → m = {})
+    (h : TornDetected c g) : TornHarmless c g := by
+  intro ps hps q hq m hm
+  unfold decodePayload at hm
+  cases he : c.parseEntry q with
+  | none => simp [he] at hm
+  | some e =>
+    simp only [he] at hm
+    obtain ⟨h1, h2⟩ := accepted_entry_checksummed c e m hm
+    by_cases hd : e.data = []
+    · have : c.parseMut [] = some m := by
+        unfold decodeEntry at hm
+        simp [h1, h2, hd] at hm
+        exact hm.2
+      rw [hempty m this]; exact noop_zero
+    · exact absurd h1 (h ps hps q hq e he h2 hd)
 
 /-- **C22, torn tail.** The first `k` frames are intact and are followed by arbitrary bytes `g` (a torn
-write of the remaining entries: partly written, zero-filled, garbage). Provided the checksum detects
-the damaged entries, `aof.New` fails or yields the state of a prefix of the history. -/
+write of the remaining entries: partly written, zero-filled, garbage). Provided whatever the framing
+cuts out of `g` is rejected or a no-op (`TornHarmless`; it follows from CRC detection, see
+`torn_detected_harmless`), `aof.New` fails or yields the state of a prefix of the history. -/
 theorem torn_tail_safe (c : Codec) (hist : List Mutation) (es : List Bytes)
     (hes : ∀ e ∈ es, e.length < 2 ^ 64)
     (hcodec : decodeAll c es = some (runHist Store.init hist).log) (k : Nat) (g : Bytes)
-    (hcrc : TornRejected c g) :
+    (hg : TornHarmless c g) :
     ErrorOrPrefixState hist (reopenBytes c (segBytes (es.take k) ++ g)) := by
   have hl := load_segBytes_append (es.take k) g (fun e he => hes e (List.mem_of_mem_take he))
-  cases hg : load g with
-  | none => left; rw [hg] at hl; simp [reopenBytes, hl]
+  cases hlg : load g with
+  | none => left; rw [hlg] at hl; simp [reopenBytes, hl]
   | some ps =>
-    rw [hg] at hl
-    cases ps with
-    | nil =>
-      exact reopen_payload_prefix c hist es hcodec k _ (by simpa using hl)
-    | cons q qs =>
-      left
-      have hq : decodePayload c q = none := by
-        unfold decodePayload
-        cases he : c.parseEntry q with
-        | none => rfl
-        | some e =>
-          simp only
-          cases hd : decodeEntry c e with
-          | none => rfl
-          | some m =>
-            obtain ⟨h1, h2⟩ := accepted_entry_checksummed c e m hd
-            exact absurd h1 (hcrc (q :: qs) hg q (by simp) e he h2)
-      simp [reopenBytes, hl, decodeAll_append_reject c _ q qs hq]
+    rw [hlg] at hl
+    simp only at hl
+    have hda := decodeAll_append c (es.take k) ps
+    rw [decodeAll_take c es _ hcodec k] at hda
+    cases hdp : decodeAll c ps with
+    | none => left; rw [hdp] at hda; simp [reopenBytes, hl, hda]
+    | some ns =>
+      rw [hdp] at hda
+      simp only at hda
+      have hno : ∀ n ∈ ns, Noop n := by
+        intro n hn
+        obtain ⟨q, hq, hdq⟩ := decodeAll_mem c ps ns hdp n hn
+        exact hg ps hlg q hq n hdq
+      obtain ⟨p, hp, hrep⟩ := prefix_log_state hist k
+      have hrep' : replay ((runHist Store.init hist).log.take k ++ ns) =
+          .ok (specState Mem.empty (hist.take p)) := by
+        unfold replay at hrep ⊢
+        rw [replayG_reset_append_list, hrep]
+        exact replay_noops _ ns hno
+      right
+      refine ⟨{ log := (runHist Store.init hist).log.take k ++ ns, mem := specState Mem.empty (hist.take p),
+                counter := ((runHist Store.init hist).log.take k ++ ns).length + 1 }, p, ?_, hp, rfl⟩
+      simp [reopenBytes, hl, hda, reopenLog, hrep']
+
+/-- the same with the CRC hypothesis spelled out -/
+theorem torn_tail_safe_crc (c : Codec) (hist : List Mutation) (es : List Bytes)
+    (hes : ∀ e ∈ es, e.length < 2 ^ 64)
+    (hcodec : decodeAll c es = some (runHist Store.init hist).log) (k : Nat) (g : Bytes)
+    (hempty : ∀ m, c.parseMut [] = some m → m = {}) (hcrc : TornDetected c g) :
+    ErrorOrPrefixState hist (reopenBytes c (segBytes (es.take k) ++ g)) :=
+  torn_tail_safe c hist es hes hcodec k g (torn_detected_harmless c g hempty hcrc)
 
 /-! ### Non-vacuity -/
 
@@ -355,7 +451,7 @@ def toyCodec : Codec where
     | v :: ck :: d => some { version := v, data := d, checksum := ck }
     | _ => none
   crc d := d.sum % 251
-  parseMut d := some { type := tPut, key := d, value := [1] }
+  parseMut d := if d = [] then some {} else some { type := tPut, key := d, value := [1] }
 
 def toyHist : List Mutation :=
   [{ type := tPut, key := [5, 6], value := [1] }, { type := tPut, key := [7], value := [1] }]
@@ -370,8 +466,8 @@ example : segBytes toyPayloads = [4, 1, 11, 5, 6, 3, 1, 7, 7] := by
 example : load [3, 1] = none := by rw [load]; simp [uvarint, uvarintAux]
 example : load [1, 9] = some [[9]] := by rw [load]; simp [uvarint, uvarintAux, load_nil]
 -- the all-zero torn tail: every zero byte is an empty frame, an empty entry has version 0 ≠ V1
-example : TornRejected toyCodec [0, 0] := by
-  intro ps hps q hq e he hv
+example : TornDetected toyCodec [0, 0] := by
+  intro ps hps q hq e he hv _
   have h0 : load [0, 0] = some [[], []] := by
     have := load_segBytes [[], []] (by decide)
     simpa [segBytes, frame, putUvarint_lt] using this
